@@ -357,6 +357,31 @@ pub fn lerps(d: &mut Drv) {
     d.call("lerp", || arg("unclamped_precise"), || eq_(&Quaternion::lerp_unclamped_precise_unnormalized(pa, pb, t)));
 }
 
+// ---------------------------------------------------------------------------
+// C11: the polynomial spatial functions on free symbols, for the spatial vector types of up to 16 elements
+pub fn spatial(d: &mut Drv) {
+    macro_rules! one {
+        ($V:ident, $n:expr, $name:expr) => {{
+            sym::reset();
+            let (a, b) = (fresh($n), fresh($n));
+            let (va, vb) = (vek::$V::<Sym>::from_slice(&a), vek::$V::<Sym>::from_slice(&b));
+            let o = |v: vek::$V<Sym>| evs(&v.into_iter().collect::<Vec<Sym>>());
+            let ab = || json!({"ty": $name, "a": evs(&a), "b": evs(&b), "lane": "sym"});
+            d.call("v_dot", ab, || ev(va.dot(vb)));
+            d.call("v_mag2", || json!({"ty": $name, "a": evs(&a), "lane": "sym"}), || ev(va.magnitude_squared()));
+            d.call("v_dist2", ab, || ev(va.distance_squared(vb)));
+            d.call("v_reflect", || json!({"ty": $name, "a": evs(&a), "n": evs(&b), "unit": 0, "lane": "sym"}), || o(va.reflected(vb)));
+        }};
+    }
+    one!(Vec2, 2, "Vec2"); one!(Vec3, 3, "Vec3"); one!(Vec4, 4, "Vec4"); one!(Vec8, 8, "Vec8"); one!(Vec16, 16, "Vec16");
+    one!(Extent2, 2, "Extent2"); one!(Extent3, 3, "Extent3");
+    sym::reset();
+    let (a, b) = (fresh(3), fresh(3));
+    d.call("v_cross", || json!({"a": evs(&a), "b": evs(&b), "lane": "sym"}), || { let c = v3(&a).cross(v3(&b)); evs(&[c.x, c.y, c.z]) });
+    let (p, q, r) = (fresh(2), fresh(2), fresh(2));
+    d.call("v_side", || json!({"how": "determine_side", "a": evs(&p), "b": evs(&q), "c": evs(&r), "lane": "sym"}), || ev(v2(&r).determine_side(v2(&p), v2(&q))));
+}
+
 /// `vh drive sym --area rot|quat|affine [--chains FILE] --out F`: one pass over every operation form (the records
 /// do not depend on a seed: the operands are free symbols).
 pub fn drive_sym(args: &[String]) {
@@ -367,6 +392,7 @@ pub fn drive_sym(args: &[String]) {
         "quat" => quats(&mut d),
         "bezier" => bezier(&mut d),
         "lerp" => lerps(&mut d),
+        "spatial" => spatial(&mut d),
         "affine" => {
             let mut chains: Vec<(usize, Vec<String>)> = vec![];
             if let Some(p) = arg(args, "--chains") {
